@@ -56,8 +56,13 @@ trait CommonThreadInfo {
 
         let status_path = path::PathBuf::from(format!("/proc/{}/status", tid));
         let status_file = std::fs::File::open(status_path)?;
-        for line in io::BufReader::new(status_file).lines() {
-            let l = line?;
+        for line in io::BufReader::new(status_file).split(b'\n') {
+            let line = line?;
+            // The file is not guaranteed to be UTF-8 (the `Name:` line holds the raw thread
+            // name); the lines we are interested in are plain ASCII.
+            let Ok(l) = String::from_utf8(line) else {
+                continue;
+            };
             let start = l
                 .get(0..6)
                 .ok_or_else(|| ThreadInfoError::InvalidProcStatusFile(tid, l.clone()))?;
